@@ -141,7 +141,7 @@ class Render:
                 out.add(b[1])
             elif b[0] in ("call", "lcall"):
                 return None
-            elif b[0] in ("for", "forc", "forc2"):
+            elif b[0] in ("for", "forc", "forc2", "while"):
                 t = self._touched(b[2])
                 if t is None:
                     return None
@@ -163,7 +163,7 @@ class Render:
 
     def stmt(self, s, ind):
         k = s[0]
-        if k in ("for", "forc", "forc2"):
+        if k in ("for", "forc", "forc2", "while"):
             self._forget(self._touched(s[2]))  # at the loop head on iteration >= 2
             saved = dict(self.last_state)
             self._stmt(s, ind)
@@ -227,6 +227,27 @@ class Render:
             self.results.pop(); self.defs.pop()
             self.accs.pop()
             self.ivs.pop()
+            self.emit("}", ind)
+        elif k == "while":
+            # a counting loop written as scf.while (a region op the state tracing has no special case for)
+            _, bounds, body = s
+            lb, ub, stp = BOUNDS[bounds]
+            r, k0, c, iv, nx = self.fresh("wr"), self.fresh("wk"), self.fresh("wc"), self.fresh("i"), self.fresh("wn")
+            self.emit(f"{r} = scf.while ({k0} = {lb}) : (index) -> index {{", ind)
+            self.emit(f"{c} = arith.cmpi slt, {k0}, {ub} : index", ind + 1)
+            self.emit(f"scf.condition({c}) {k0} : index", ind + 1)
+            self.emit("} do {", ind)
+            self.emit(f"^bb0({iv} : index):", ind)
+            self.ivs.append(iv)
+            self.accs.append(None)
+            self.results.append([]); self.defs.append(None)
+            for b in body:
+                self.stmt(b, ind + 1)
+            self.results.pop(); self.defs.pop()
+            self.accs.pop()
+            self.ivs.pop()
+            self.emit(f"{nx} = arith.addi {iv}, {stp} : index", ind + 1)
+            self.emit(f"scf.yield {nx} : index", ind + 1)
             self.emit("}", ind)
         elif k == "forc":
             _, bounds, body = s
@@ -385,7 +406,7 @@ def has_cfg(prog):
     for s in prog:
         if s[0] == "cfg":
             return True
-        if s[0] in ("for", "forc", "forc2") and has_cfg(s[2]):
+        if s[0] in ("for", "forc", "forc2", "while") and has_cfg(s[2]):
             return True
         if s[0] == "if" and (has_cfg(s[2]) or (s[3] is not None and has_cfg(s[3]))):
             return True
@@ -397,7 +418,7 @@ def count_cfg(prog):
     for s in prog:
         if s[0] == "cfg":
             n += 1
-        elif s[0] in ("for", "forc", "forc2"):
+        elif s[0] in ("for", "forc", "forc2", "while"):
             n += count_cfg(s[2])
         elif s[0] == "if":
             n += count_cfg(s[2]) + (count_cfg(s[3]) if s[3] is not None else 0)
@@ -534,6 +555,16 @@ def program_set(tier, seed, want_calls=True):
                     add((("cfg", "acc1", pt), ("for", "args", body)))
                     if not quick:
                         add((("cfg", "acc1", pw), ("for", "c01", body)))
+    # region ops the state tracing has no special case for (scf.while): what happens inside has to be forgotten behind it
+    for bk in ("args", "k13", "k42"):
+        for p0 in range(3):
+            for p1 in range(3):
+                add((("cfg", "acc1", p0), ("while", bk, (("cfg", "acc1", p1),)), ("cfg", "acc1", p0)))
+                add((("cfg", "acc1", p0), ("while", bk, (("cfg", "acc1", p1),)), ("rl", "acc1")))
+                if want_calls and p1 == 0:
+                    add((("cfg", "acc1", p0), ("while", bk, (("call",),)), ("cfg", "acc1", p0)))
+                    add((("cfg", "acc1", p0), ("while", bk, (("if", 0, (("call",),), None),)), ("cfg", "acc1", p0)))
+                    add((("for", "args", (("cfg", "acc1", p0), ("while", bk, (("call",),)))),))
     # a conditional in which one branch ends with the accelerator clobbered by a call and the other one configures it,
     # between two configurations (all combinations of a 3-value palette)
     if want_calls:
